@@ -30,6 +30,7 @@ def run(ctx):
     ctx.rule("C09.7", "one reply per request: a single send site outside any loop in each request task")
     ctx.rule("C09.8", "sections, AA and RCODE per ResolvedRecord variant; SERVFAIL only for an empty NOERROR reply")
     ctx.rule("C09.9", "listen loops have no exit edge; process::exit only during start-up")
+    ctx.rule("C09.11", "read_tcp_bytes: an error carries id = the first two body octets (big-endian) whenever at least two were read; id = None only under a fact implying fewer than two (or when the length prefix itself could not be read)")
     ctx.rule("C09.10", "records placed in the answer section come from an answer (`rrs` of an answering result), not from a referral")
     ctx.decline("live socket behaviour, 'exactly one reply' under all interleavings; panic-freedom of the request path is decided under C03/C08/C17")
 
@@ -340,6 +341,84 @@ def run(ctx):
     ctx.check(ok, "C09.6", "read_tcp_bytes:complete", "Ok(bytes) only once bytes.len() >= announced length", "a short read can be returned as complete", rt.loc())
     ts = [(b, e) for b, e in A.return_exprs(rt, rr) if "TooShort" in A.show(e)]
     ctx.check(len(ts) == 1, "C09.6", "read_tcp_bytes:early-close", "EOF before the announced length => TooShort", "early close is not an error", rt.loc())
+
+    # ---------------------------------------------------------------- C09.11
+    def len_upper(fc):
+        """strict upper bound on bytes.len() implied by one edge fact, or None"""
+        if fc[0] != "cmp":
+            return None
+        op, l, rgt = fc[1], A.peel(fc[2]), A.peel(fc[3])
+        flip = {"Lt": "Gt", "Le": "Ge", "Gt": "Lt", "Ge": "Le", "Eq": "Eq", "Ne": "Ne"}
+        if l[0] == "const" and bool(Call("len")(rgt)):
+            op, l, rgt = flip[op], rgt, l
+        if not (bool(Call("len")(l)) and rgt[0] == "const" and isinstance(rgt[2], int)):
+            return None
+        return {"Lt": rgt[2], "Le": rgt[2] + 1, "Eq": rgt[2] + 1}.get(op)
+    ids = 0
+    nones_in_loop = 0
+    cap = A.call_blocks(rt, A.name_is("bytes::BytesMut::with_capacity"))
+    ctx.check(len(cap) == 1, "C09.11", "read_tcp_bytes:buffer", "one body buffer", "%d body buffers" % len(cap), rt.loc())
+    loop_blocks = {b for b in rt.reachable(0) if cap and rt.dominates(cap[0][0], b)}   # the body buffer exists
+    for b, i, st in rt.assigns():
+        rv = st["rv"]
+        if not (rv["k"] == "agg" and rv.get("ak") == "adt" and rv["adt"].endswith("option::Option") and b in rt.reachable(0)):
+            continue
+        e = rr.rvalue(rv, (b, i))
+        if e[2] == "Some":
+            v = A.peel(dict(e[3])["0"])
+            ok = v[0] == "call" and v[1].endswith("u16>::from_be_bytes")
+            arr = A.peel(v[2][0]) if ok else None
+            idx = []
+            if ok and arr[0] == "array":
+                for el in arr[1]:
+                    el = A.peel(el)
+                    idx.append(A.peel(el[2])[2] if el[0] == "index" and A.peel(el[2])[0] == "const" else None)
+            ids += 1
+            ctx.check(idx == [0, 1], "C09.11", "read_tcp_bytes:id-value#%d" % ids, "id = u16::from_be_bytes([bytes[0], bytes[1]])",
+                      "the reported id is %s" % A.show(v)[:120], rt.loc(b, i))
+        elif e[2] == "None":
+            if b not in loop_blocks:
+                continue            # the length prefix itself failed: nothing was read
+            nones_in_loop += 1
+            ub = [u for u in (len_upper(fc) for fc in rc.facts_on_all_paths(b)) if u is not None]
+            ctx.check(any(u <= 2 for u in ub), "C09.11", "read_tcp_bytes:no-id#%d" % nones_in_loop, "id = None only when bytes.len() < 2",
+                      "an error is reported without the request id although two or more octets may have been read (facts bound len below %s) - no FORMERR reply is sent"
+                      % (min(ub) if ub else "nothing"), rt.loc(b, i))
+    ctx.floor("C09.11", "Some(id) constructions in read_tcp_bytes", ids, 2)
+    tcp_errs = list(A.aggregates(rt, NET + "TcpError"))
+    for b, i, st in tcp_errs:
+        if b in loop_blocks:
+            e = rr.rvalue(st["rv"], (b, i))
+            idv = A.peel(dict(e[3])["id"])
+            alts = idv[1] if idv[0] == "phi" else [idv]
+            has_some = any(A.peel(a)[0] == "agg" and A.peel(a)[2] == "Some" for a in alts)
+            ctx.check(has_some, "C09.11", "read_tcp_bytes:%s-carries-id" % e[2], "the error raised mid-message can carry the id",
+                      "TcpError::%s raised after body octets were read never carries the id" % e[2], rt.loc(b, i))
+
+    # the server side: every TcpError variant's id is turned into the FORMERR reply
+    maps = []
+    for f in prog.family("resolved::listen_tcp_task"):
+        fr_ = A.Resolver(f)
+        for b, t in f.calls():
+            if (t.get("callee") or "").endswith("Option::<T>::map"):
+                e = fr_.call_expr(t, b)
+                fnarg = A.peel(e[2][1])
+                if "make_format_error_response" in A.show(fnarg):
+                    maps.append((f, b, e))
+    ctx.floor("C09.11", "id.map(make_format_error_response) in the TCP task", len(maps), 1, exact=True)
+    for f, b, e in maps:
+        recv = A.peel(e[2][0])
+        alts = recv[1] if recv[0] == "phi" else [recv]
+        got = set()
+        for a in alts:
+            a = A.peel(a)
+            if a[0] == "field" and a[2] == "id" and a[1][0] == "downcast" and any(x[0] == "call" and x[1] == NET + "read_tcp_bytes" for x in A.walk(a)):
+                got.add(a[1][2])
+            else:
+                got.add("?" + A.show(a)[:60])
+        want = {v["name"] for v in prog.adt(NET + "TcpError")["variants"]}
+        ctx.check(got == want, "C09.11", "listen_tcp_task:error-id", "FORMERR reply from the id of every TcpError variant (%s)" % sorted(want),
+                  "the id handed to make_format_error_response comes from %s, expected the id field of each of %s" % (sorted(got), sorted(want)), f.loc(b))
 
     # ---------------------------------------------------------------- C09.7 / C09.9
     for task, send_name, kind in (("resolved::listen_udp_task", NET + "send_udp_bytes_to", "udp"), ("resolved::listen_tcp_task", NET + "send_tcp_bytes", "tcp")):
